@@ -528,7 +528,9 @@ def main():
         ids = {}
         for s in sc["stmts"]:
             ids.setdefault(s["text"].strip(), len(ids) + 1)
-        coq.append("Eval vm_compute in check_trace %s %s." % (g_list(["%d%%nat" % ids[s["text"].strip()] for s in sc["stmts"]]), g_events(sc, res, ids)))
+        # accepted by the checker AND producible by a FIFO device: by C16_accepted_trace_is_run the trace then IS a run of the model
+        evs_term = g_events(sc, res, ids)
+        coq.append("Eval vm_compute in (check_trace %s %s && answerable %s 0 0)%%bool." % (g_list(["%d%%nat" % ids[s["text"].strip()] for s in sc["stmts"]]), evs_term, evs_term))
         meta.append(rep)
         if len(run.cov["samples"]) < 3:
             run.sample(dict(statements=[s["text"] for s in sc["stmts"]], events=[list(e[1:]) for e in res["events"]][:12]))
@@ -568,7 +570,7 @@ def main():
                        "is drained after connect). Oracle: device receive log == statements (order, once, stripped); write() returns only "
                        "after the line acknowledging that statement was handed to the reader; error lines raise DeviceError from the write "
                        "they answer / the next write; readings available on return; no normal return after connection loss. "
-                       "Correspondence: each loss-free trace is a run of model/Direct.v (check_trace in Coq).")
+                       "Correspondence: each loss-free trace is a run of model/Direct.v (check_trace && answerable in Coq; C16_accepted_trace_is_run).")
     extra = dict(input_distribution=stats, traces_checked=len(meta), correspondence_mismatches=len(mism),
                  modelled_not_verified=["threading.Event / queue.Queue semantics, scheduler, timeouts", 
                                         "the fake device (harness code)"])
